@@ -1,7 +1,8 @@
 (* C09 — Copy-construction yields an equal, storage-disjoint object. Statements only. *)
 From Coq Require Import ZArith List Bool Lia.
 Import ListNotations.
-From XO Require Import Slots Strides BufOps Types Format Check LayoutProofs RefOps RefOpsProofs.
+From XO Require Import Slots Strides BufOps Types Format Check LayoutProofs RoundTrip RefOps RefOpsProofs.
+From XO Require CopyBytes.
 Open Scope Z_scope.
 
 (* the deep value of an object depends only on the objects it can reach *)
@@ -22,7 +23,40 @@ Theorem C09_disjoint_storage : forall m off bs, in_range m off (Z.of_nat (length
   (forall i, off <= i < off + Z.of_nat (length bs) -> BufOpsProofs.byte (wr m off bs) i = BufOpsProofs.byte bs (i - off)).
 Proof. exact BufOpsProofs.write_frame. Qed.
 
+(* BYTE LEVEL (reference-free types, every value): a copy is the same documented image in storage of its own.
+   What it reads depends on the bytes of its own extent only: whatever happens outside (any writes to the
+   original or to other objects, growth) it still reads the copied value *)
+Theorem C09_copy_reads_its_own_bytes : forall t v img m m' coff, has_refs t = false ->
+  enc t v = Some img -> len img < 2^62 -> sits img m coff ->
+  len m <= len m' -> CopyBytes.agree_on m m' coff (len img) ->
+  dec t m' coff = Some (v, len img).
+Proof. exact CopyBytes.copy_reads_its_own_bytes. Qed.
+(* original and copy at two disjoint places of one buffer: equal in value; a write anywhere inside the
+   original leaves the copy reading the copied value, and vice versa *)
+Theorem C09_copy_and_original_independent : forall t v img m off coff woff bs, has_refs t = false ->
+  enc t v = Some img -> len img < 2^62 -> sits img m off -> sits img m coff ->
+  (coff + len img <= off \/ off + len img <= coff) ->
+  dec t m coff = dec t m off /\
+  (off <= woff -> woff + len bs <= off + len img -> dec t (wr m woff bs) coff = Some (v, len img)) /\
+  (coff <= woff -> woff + len bs <= coff + len img -> dec t (wr m woff bs) off = Some (v, len img)).
+Proof. exact CopyBytes.copy_and_original_independent. Qed.
+(* a copy in another buffer / context reads the value of the original *)
+Theorem C09_copy_in_other_buffer_equal : forall t v img m off m2 coff, has_refs t = false ->
+  enc t v = Some img -> len img < 2^62 -> sits img m off -> sits img m2 coff -> dec t m2 coff = dec t m off.
+Proof. exact CopyBytes.copy_in_other_buffer_equal. Qed.
+(* with references: equal as soon as the reference slots of each denote images of the same referents (the
+   same objects when the buffer is shared -- the stored slot-relative offsets then differ -- duplicates otherwise) *)
+Theorem C09_copy_with_references_equal : forall t v img m off m2 coff,
+  enc t v = Some img -> len img < 2^62 ->
+  sits img m off -> targets_ok t v m off -> sits img m2 coff -> targets_ok t v m2 coff ->
+  dec t m2 coff = dec t m off /\ dec t m off = Some (v, len img).
+Proof. exact CopyBytes.copy_with_references_equal. Qed.
+
 Print Assumptions C09_deep_depends_on_reachable.
 Print Assumptions C09_copy_independent.
 Print Assumptions C09_write_touches_one_object.
 Print Assumptions C09_disjoint_storage.
+Print Assumptions C09_copy_reads_its_own_bytes.
+Print Assumptions C09_copy_and_original_independent.
+Print Assumptions C09_copy_in_other_buffer_equal.
+Print Assumptions C09_copy_with_references_equal.
